@@ -156,20 +156,24 @@ def run(ctx, cases_override=None):
     thorough = ctx.thorough
     giveup = ("InsertGiveUp", "CompactRefuse")
     stage_a = [
+        # the design: refinement, invariants, liveness
         lambda: ctx.mc("MC_MpqHashTable", cfg="MC_MpqHashTable_T" if thorough else "MC_MpqHashTable", timeout=1500,
                        allow_uncovered=giveup, workers=4),
         lambda: ctx.mc("MC_MpqHashTable", cfg="MC_MpqHashTable_LT" if thorough else "MC_MpqHashTable_L", timeout=900, workers=2,
                        allow_uncovered=("InsertGiveUp", "AddRefuseFull", "RenameRefuseDst")),
-        lambda: expect_violation(ctx, "MC_MpqHashTable_codeA", "Invariant NoDamage is violated"),
-        lambda: expect_violation(ctx, "MC_MpqHashTable_codeB", "Invariant ProbeBounded is violated"),
-        lambda: expect_violation(ctx, "MC_MpqHashTable_codeC", "Action property AtomicRefines is violated"),
-        # the implementation as it is now: remaining deviations exhibited, the rest refines MpqMap
-        lambda: expect_violation(ctx, "MC_MpqHashTable_codeD", "Invariant ListfileExact is violated"),
-        lambda: expect_violation(ctx, "MC_MpqHashTable_codeE", "Action property OpRefines is violated"),
-        lambda: ctx.mc("MC_MpqHashTable", cfg="MC_MpqHashTable_codeF", timeout=900, workers=2,
-                       allow_uncovered=("InsertGiveUp", "CompactRefuse", "FlushV3Broken", "CloseV3Broken", "CompactV3", "AddRefuseFull")),
+        # the implementation as it is now (encryption, fix_key, substring names; with / without listfile) satisfies the same
         lambda: ctx.mc("MC_MpqHashTable", cfg="MC_MpqHashTable_codeOK", timeout=900, workers=2,
-                       allow_uncovered=giveup + ("FlushV3Broken", "CloseV3Broken", "CompactV3", "CompactRefuseUnreadable")),
+                       allow_uncovered=("InsertGiveUp", "CompactRefuse", "CompactRefuseNow")),
+        lambda: ctx.mc("MC_MpqHashTable", cfg="MC_MpqHashTable_codeF", timeout=900, workers=2,
+                       allow_uncovered=("InsertGiveUp", "CompactRefuse", "AddRefuseFull")),
+        # every former behaviour of the implementation stays refuted by TLC
+        lambda: expect_violation(ctx, "MC_MpqHashTable_codeA", "Invariant NoDamage is violated"),                 # c4da446
+        lambda: expect_violation(ctx, "MC_MpqHashTable_codeB", "Invariant ProbeBounded is violated"),             # 20d617c
+        lambda: expect_violation(ctx, "MC_MpqHashTable_codeC", "Action property AtomicRefines is violated"),      # 5040b10
+        lambda: expect_violation(ctx, "MC_MpqHashTable_codeD", "Invariant ListfileExact is violated"),            # 6cf538f
+        lambda: expect_violation(ctx, "MC_MpqHashTable_codeE", "Action property OpRefines is violated"),          # 8390629
+        lambda: expect_violation(ctx, "MC_MpqHashTable_codeG", "Invariant AbsClean is violated"),                 # 22716d7
+        lambda: expect_violation(ctx, "MC_MpqHashTable_codeH", "Invariant SessionReadStaleAgrees is violated"),   # 9c6ca29
     ]
     # stage A runs concurrently with generation, build and replay; it is joined before the verdict
     import concurrent.futures as cf
